@@ -2,9 +2,14 @@
    option, unit, list, prod, sumbool map to OCaml's; N / positive / nat / string
    stay the Coq inductives (no Extract Constant, no native integers). *)
 From Coq Require Import Extraction ExtrOcamlBasic.
-From Mtbl Require Import gen.Consts gen.CrcTables model.Bytes model.Codec.
+From Mtbl Require Import gen.Consts gen.CrcTables model.Bytes model.Codec model.Order model.Crc model.Block model.Writer model.WriteLoop spec.Leb128 spec.Parse.
 Extraction Language OCaml.
 Set Extraction KeepSingleton.
 Extraction "mtbl_model.ml"
   varint_length varint_length_packed varint_encode32 varint_encode64
-  varint_decode32 varint_decode64 fixed_encode32 fixed_encode64 fixed_decode32 fixed_decode64.
+  varint_decode32 varint_decode64 fixed_encode32 fixed_encode64 fixed_decode32 fixed_decode64
+  bcmp sep lcp is_prefix crc32c_ref crc_slicing
+  writer_session writer_init writer_add writer_finish writer_chunks writer_bytes clamp_block_size metadata_read metadata_write
+  write_chunks write_all error_met
+  parse_table wf_validate table_entries
+  DEFAULT_COMPRESSION_TYPE DEFAULT_COMPRESSION_LEVEL DEFAULT_BLOCK_SIZE DEFAULT_BLOCK_RESTART_INTERVAL.
